@@ -12,3 +12,5 @@ for c in "$@"; do
     echo "$c exit=$? $(grep -c '^VIOLATION' /tmp/mutant-out/$c.log) violation line(s): $(grep -m1 -B2 '^VIOLATION' /tmp/mutant-out/$c.log | head -1 | cut -c1-220)"
 done
 git -C /repo checkout -- .
+# leave the simulator built against the restored tree
+./check build >/dev/null
